@@ -31,7 +31,7 @@ theorem writeItems_node_nn (l r : Tree) (i : Item) (a b : Nat) (s : FileSt) :
         (.node (writeItems l s).1 i a b (writeItems r (itemStep (writeItems l s).2 i)).1 none
             (some ⟨(writeItems l s).2.size, itemRecLen i⟩),
           (writeItems r (itemStep (writeItems l s).2 i)).2) := by
-  simp only [writeItems, itemStep]
+  rfl
 
 theorem writeItems_node_ns (l r : Tree) (i : Item) (a b : Nat) (il : Ploc) (s : FileSt) :
     writeItems (.node l i a b r none (some il)) s =
@@ -58,7 +58,7 @@ theorem writeNodes_node_n (l r : Tree) (i : Item) (a b : Nat) (q : Option Ploc) 
             (some ⟨(writeNodes r (writeNodes l s).2).2.size, nodeRecLen⟩) q,
           recStep (writeNodes r (writeNodes l s).2).2
             (nodeRecOf (writeNodes l s).1 (writeNodes r (writeNodes l s).2).1 a b q) nodeRecLen) := by
-  simp only [writeNodes, recStep, nodeRecOf]
+  rfl
 
 theorem writeTree_eq (t : Tree) (s : FileSt) :
     writeTree t s =
@@ -176,7 +176,7 @@ theorem planFired_advance (s : FileSt) (n : Nat) (h : s.PlanFired) : (s.advance 
   · exact h
 
 /-- if a plan is armed and it is consumed during the flush, the flush reports failure -/
-theorem flushStore_fault_reported (cs : List Coll) (s : FileSt) (h0 : s.failed = false)
+theorem flushStore_fault_reported (cs : List Coll) (s : FileSt) (_h0 : s.failed = false)
     (k : Nat) (hk : s.failAt = some (k+1)) (hcons : (flushStore cs s).2.failAt = none) :
     (flushStore cs s).2.failed = true := by
   have hP : s.PlanFired := by
@@ -374,7 +374,7 @@ theorem flushStore_clean (cs : List Coll) (s : FileSt) (h : (flushStore cs s).2.
 
 /-- conversely a flush that did not fail left the plan merely decremented or untouched, and wrote
     exactly what a fault-free flush writes -/
-theorem flushStore_unfailed_same_bytes (cs : List Coll) (s : FileSt) (h0 : s.failed = false)
+theorem flushStore_unfailed_same_bytes (cs : List Coll) (s : FileSt) (_h0 : s.failed = false)
     (hok : (flushStore cs s).2.failed = false) :
     (flushStore cs s).2.bytes = (flushStore cs { s with failAt := none }).2.bytes ∧
     (flushStore cs s).2.size = (flushStore cs { s with failAt := none }).2.size ∧
@@ -495,7 +495,7 @@ theorem writeItems_coherent_any (t : Tree) (s : FileSt) (hsz : s.size ≤ s.byte
         rw [writeItems_node_nn]
         by_cases hf1 : (writeItems l s).2.failed = true
         · rw [if_pos hf1]
-          exact ⟨⟨cl, hcr.frame hfl hsz, fun il h => by cases h, fun loc h => by cases h⟩,
+          exact ⟨⟨cl, hcr.frame hfl hsz, fun il h => (by cases h), fun loc h => (by cases h)⟩,
             fun hf => by rw [hf1] at hf; cases hf⟩
         · rw [if_neg hf1]
           have hfi := itemStep_frame (writeItems l s).2 i
@@ -503,8 +503,8 @@ theorem writeItems_coherent_any (t : Tree) (s : FileSt) (hsz : s.size ≤ s.byte
             itemStep_wf _ i hwl
           by_cases hf2 : (itemStep (writeItems l s).2 i).failed = true
           · rw [if_pos hf2]
-            exact ⟨⟨cl.frame hfi hwl, (hcr.frame hfl hsz).frame hfi hwl, fun il h => by cases h,
-              fun loc h => by cases h⟩, fun hf => by rw [hf2] at hf; cases hf⟩
+            exact ⟨⟨cl.frame hfi hwl, (hcr.frame hfl hsz).frame hfi hwl, fun il h => (by cases h),
+              fun loc h => (by cases h)⟩, fun hf => by rw [hf2] at hf; cases hf⟩
           · rw [if_neg hf2]
             have hia := itemStep_itemAt (writeItems l s).2 i hwl hoi (by simpa using hf2)
             have hfr := writeItems_frame r (itemStep (writeItems l s).2 i)
@@ -555,7 +555,7 @@ theorem writeNodes_coherent_any (t : Tree) (s : FileSt) (hsz : s.size ≤ s.byte
         dsimp only at hlim ⊢
         obtain ⟨cl, _⟩ := ihl s hsz hcl dl hol (by omega)
         obtain ⟨cr, _⟩ := ihr _ hwl (hcr.frame hfl hsz) dr hor (by omega)
-        refine ⟨⟨cl.frame hfr hwl, cr, ?_, fun loc h => by cases h⟩,
+        refine ⟨⟨cl.frame hfr hwl, cr, ?_, fun loc h => (by cases h)⟩,
           fun hf => by rw [hf1] at hf; cases hf⟩
         intro il hil
         exact ((hci il hil).frame hfl hsz).frame hfr hwl
@@ -569,7 +569,7 @@ theorem writeNodes_coherent_any (t : Tree) (s : FileSt) (hsz : s.size ≤ s.byte
           dsimp only at hlim ⊢
           obtain ⟨cl, _⟩ := ihl s hsz hcl dl hol (by omega)
           obtain ⟨cr, _⟩ := ihr _ hwl (hcr.frame hfl hsz) dr hor (by omega)
-          refine ⟨⟨(cl.frame hfr hwl).frame hfw hwr, cr.frame hfw hwr, ?_, fun loc h => by cases h⟩,
+          refine ⟨⟨(cl.frame hfr hwl).frame hfw hwr, cr.frame hfw hwr, ?_, fun loc h => (by cases h)⟩,
             fun hf => by rw [hf2] at hf; cases hf⟩
           intro il hil
           exact (((hci il hil).frame hfl hsz).frame hfr hwl).frame hfw hwr
